@@ -138,6 +138,66 @@ impl T {
         }
     }
 
+    /// some chance infoset label occurs at two multi-outcome chance nodes of one root-to-leaf path
+    /// (legal: chance infosets need no recall; the sampled solvers then follow one draw at both)
+    pub fn chance_label_repeats_on_path(&self) -> bool {
+        fn rec<'a>(node: &'a T, path: &mut Vec<&'a str>) -> bool {
+            match node {
+                T::Term(_) => false,
+                T::Chance(label, outs) => {
+                    let mut pushed = false;
+                    if outs.len() >= 2 {
+                        if let Some(l) = label {
+                            if path.contains(&l.as_str()) {
+                                return true;
+                            }
+                            path.push(l.as_str());
+                            pushed = true;
+                        }
+                    }
+                    let res = outs.iter().any(|(_, t)| rec(t, path));
+                    if pushed {
+                        path.pop();
+                    }
+                    res
+                }
+                T::Player(_, _, acts) => acts.iter().any(|(_, t)| rec(t, path)),
+            }
+        }
+        rec(self, &mut Vec::new())
+    }
+
+    /// the same game with every chance node whose label already occurs above it on its path made
+    /// anonymous (its own infoset); evaluation and the unsampled method cannot tell the difference
+    pub fn without_path_repeats(&self) -> T {
+        fn rec(node: &T, path: &mut Vec<String>) -> T {
+            match node {
+                T::Term(p) => T::Term(*p),
+                T::Chance(label, outs) => {
+                    let mut label = label.clone();
+                    let mut pushed = false;
+                    if outs.len() >= 2 {
+                        if let Some(l) = &label {
+                            if path.contains(l) {
+                                label = None;
+                            } else {
+                                path.push(l.clone());
+                                pushed = true;
+                            }
+                        }
+                    }
+                    let outs = outs.iter().map(|(w, t)| (*w, rec(t, path))).collect();
+                    if pushed {
+                        path.pop();
+                    }
+                    T::Chance(label, outs)
+                }
+                T::Player(p, i, acts) => T::Player(*p, i.clone(), acts.iter().map(|(a, t)| (a.clone(), rec(t, path))).collect()),
+            }
+        }
+        rec(self, &mut Vec::new())
+    }
+
     /// compact single line rendering for samples
     pub fn brief(&self) -> String {
         match self {
